@@ -38,7 +38,8 @@ OkStep(e) ==
                     /\ ~IsZeroN(e.r) /\ C(Mul(X(e), Y(e)), e.r, e, 2) /\ Less(Norm(e.r), P(e))       \* x*y mod p = r # 0
             /\ Unch(e, Others(e, {e.z}))
        [] e.op = "canon" ->         \* in-place or copying reduction / byte export: z is THE representative below p
-            /\ C(X(e), Z(e), e, 1) /\ Less(Norm(Z(e)), P(e)) /\ Unch(e, Others(e, {e.z}))
+            /\ C(X(e), Z(e), e, 1) /\ Less(Norm(Z(e)), P(e)) /\ Unch(e, Others(e, {e.z, e.x}))
+            /\ (e.post[e.x] = e.pre[e.x] \/ e.post[e.x] = Z(e))                 \* the operand may be left as is or canonicalised in place (ToBytes)
        [] e.op = "iszero" -> /\ C(X(e), e.r, e, 1) /\ Less(Norm(e.r), P(e)) /\ (e.b = IsZeroN(e.r))
                              /\ Unch(e, Others(e, {e.x}))                                \* the test may canonicalise its own operand
                              /\ C(e.post[e.x], X(e), e, 2)
